@@ -1187,6 +1187,87 @@ def ensembles_vs_single_scenarios(M, rec, rng, prop, reps):
                           {"K": K, "ramp_kinds": kinds, "element": bad[0] // 3, "scenario": bad[1], "in_the_ensemble": bad[2], "stepped_alone": bad[3]})
 
 
+def preallocated_buffers(M, rec, rng, prop, n_nets, with_options=False, force=(), edit_turnrates=False, what="the step"):
+    """The caller's preallocated loop: ONE set of state / control arrays (and, optionally, turn rates held as NumPy arrays) is
+    allocated once, handed to every step and refilled IN PLACE in between (`rho[:] = ...`, `u[:] = np.inf`,
+    `link.turnrate[...] = x`), one engine object throughout.  Every step gives what a network of fresh objects gives from
+    fresh arrays holding the same numbers: what an array object held at an earlier step plays no role."""
+    import copy
+
+    import numpy as np
+
+    NE, CE = drive.engines(M)
+    g = G.NetGen(rng)
+    for it in range(n_nets):
+        desc = copy.deepcopy(g.network(("merge", "chain", "ramp", "bifurcation", "random", "crossing")[it % 6], force=force)[1])
+        if any(o.get("user") or o.get("user_cap_flow") is not None for o in desc["origins"]) or any(l.get("user_cap") is not None or l.get("user_reorder") for l in desc["links"]):
+            continue
+        po = {(l["id"], "beta"): np.array([float(l["beta"])]) if rng.random() < 0.5 else np.array(float(l["beta"])) for l in desc["links"]} if edit_turnrates else None
+        ops = D.random_ops(desc, rng)
+        built = D.build(M, desc, ops, param_override=po)
+        pars = g.pars()
+        kw = drive.step_pars(pars)
+        eng = NE()
+        opts = {}
+        if with_options:
+            opts = {o_: True for o_ in ("positive_init_density", "positive_init_speed", "positive_init_queue") if rng.random() < 0.7} or {"positive_init_density": True}
+        bufs = None
+        for k in range(3):
+            _, vals = g.values(desc, "interior", allow_inf=False)
+            if with_options:
+                for l_ in desc["links"]:
+                    for nm_ in ("rho", "v"):
+                        for i_ in range(l_["N"]):
+                            if rng.random() < 0.2:
+                                vals[l_["id"]][nm_][i_] = -abs(vals[l_["id"]][nm_][i_]) * 0.3
+            if k == 2:
+                for l_ in desc["links"]:  # the signs switched off in place: infinite limits in the same arrays
+                    if l_.get("vsl") and "v_ctrl" in vals[l_["id"]]:
+                        vals[l_["id"]]["v_ctrl"] = [float("inf")] * len(vals[l_["id"]]["v_ctrl"])
+            d_now = desc
+            if edit_turnrates and k:
+                d_now = copy.deepcopy(desc)
+                c_ = rng.choice((0.3, 2.0, 5.0))
+                for l_ in d_now["links"]:
+                    l_["beta"] = round(rng.uniform(0.1, 2.5), 3) if k == 1 else l_["beta"] * c_
+                    built.links[l_["id"]].turnrate[...] = l_["beta"]
+                desc = d_now
+            fresh_ic = drive.np_init(built, vals, "vec1")
+            if bufs is None:
+                bufs = fresh_ic
+            else:
+                for el_, d_ in fresh_ic.items():
+                    for nm_, x_ in d_.items():
+                        bufs[el_][nm_][...] = x_
+            try:
+                with np.errstate(all="ignore"):
+                    built.net.step(init_conditions=bufs, engine=eng, **opts, **kw)
+                    got = drive.read_next(built)
+                    twin = D.build(M, d_now, ops)
+                    twin.net.step(init_conditions=drive.np_init(twin, vals, "vec1"), engine=NE(), **opts, **kw)
+                    exp = drive.read_next(twin)
+            except Exception as e:
+                rec.count("preallocated_buffer_runs_raised")
+                rec.seen("preallocated_buffer_runs_raised", repr(e)[:120])
+                break
+            rec.count("steps_from_preallocated_buffers")
+            bad = None
+            for eid_, d_ in exp.items():
+                for nm_, v_ in d_.items():
+                    a_ = np.asarray(got[eid_][nm_], float).ravel()
+                    b_ = np.asarray(v_, float).ravel()
+                    if a_.shape != b_.shape or not np.array_equal(a_, b_, equal_nan=True):
+                        bad = (eid_, nm_, a_.tolist(), b_.tolist())
+                        break
+                if bad:
+                    break
+            if bad:
+                rec.violation(f"{prop}:numpy: in the caller's preallocated loop (arrays refilled in place, one engine object) step {min(k, 1)}+ of {what} differs from the step of fresh "
+                              f"objects and arrays holding the same numbers ({bad[1]}+)",
+                              {"desc": desc, "step": k, "opts": opts, "element": bad[0], "from_the_buffers": bad[2], "fresh": bad[3]})
+                break
+
+
 def closed_loop(M, rec, rng, n_sims, steps, on_step=None, before_case=None):
     """Closed-loop NumPy simulations: next states fed back, peaked demand profiles,
     piecewise-constant random controls."""
